@@ -22,7 +22,15 @@ def check(chk, thorough=False):
     chk.run('C18.c', 'R-PAIR', 'queue maps and finished signals move together (RX map <-> recv_bundle_finished; finished TX ids leave the TX map; pops remove exactly the id)', lambda ob: c18c(tree, ob), floor=8)
     chk.run('C18.d', 'R-SCHEMA', 'the idle predicate is the conjunction of both message buffers being empty and no transfer queued, active or awaiting ACK', lambda ob: c18d(tree, ob), floor=7)
     chk.run('C18.d2', 'R-GUARD', 'the post-termination close decision uses the full idle predicate (transfers included), not just the octet buffers', lambda ob: close_check(tree, ob), floor=1)
+    chk.run('C18.f', 'R-GUARD', 'a started transfer still completes (and gets its finished signal) while terminating (= C09.h); received UDPCL items get local ids (= C13.g)', lambda ob: _c18f(tree, ob), floor=3)
     chk.run('C18.e', 'R-SCHEMA', 'BP-side subscribers name existing signals with matching arity and pop only successful transfers', lambda ob: c18e(tree, ob), floor=6)
+
+
+def _c18f(tree, ob):
+    from .c09 import c09h
+    from .c13 import c13g
+    c09h(tree, ob)
+    c13g(tree, ob, UAGENT)
 
 
 def _dbus_decl(func):
@@ -254,6 +262,25 @@ def c18c(tree, ob):
                 ob.site(SESS, f, '{}: finished signal is paired with removal from the TX map'.format(item.name))
             else:
                 ob.violate(SESS, qual, src(f)[:70].replace('\n', ' '), 'a transfer is announced as finished but stays in the TX map: send_bundle_get_queue keeps listing a finished id', f)
+    # both maps are keyed by the integer transfer id: a text key never matches
+    for item in cls.body:
+        if not isinstance(item, ast.FunctionDef):
+            continue
+        qual = 'ContactHandler.' + item.name
+        fvk = None
+        keys = []
+        for call in calls_in(item):
+            if isinstance(call.func, ast.Attribute) and self_attr(call.func.value) in ('_tx_map', '_rx_map') and call.func.attr in ('pop', 'get', '__contains__') and call.args:
+                keys.append((call, call.args[0]))
+        for sub in walk_local(item):
+            if isinstance(sub, ast.Subscript) and self_attr(sub.value) in ('_tx_map', '_rx_map'):
+                keys.append((sub, sub.slice))
+        for (site, key) in keys:
+            fvk = fvk or FuncView(tree, SESS, qual)
+            kt = Typer(tree, fvk, _param_types(item)).of(key, site)
+            if kt == 's':
+                ob.violate(SESS, qual, src(site)[:60], 'the transfer map is keyed by integer ids but is accessed with a text key here: nothing is found / removed, '
+                           'so finished transfers stay listed and later messages for them are accepted', site)
     # the TX map gains entries only when queued
     ins = []
     for item in cls.body:
